@@ -1290,6 +1290,11 @@ Hread(int32 access_id, int32 length, void *data)
     if (length == 0 || length + access_rec->posn > data_len)
         length = data_len - access_rec->posn;
 
+    /* the position can be beyond the end (seek past the end of an appendable element,
+       element truncated through another access id): nothing to read then */
+    if (length < 0)
+        length = 0;
+
     /* read in data */
     if (HP_read(file_rec, data, length) == FAIL)
         HGOTO_ERROR(DFE_READERROR, FAIL);
